@@ -501,3 +501,99 @@ func BacklogScenarios(tier string) []sched.Scenario {
 		{Name: "follower-snapshot-install-vs-slow-apply-read", Cfg: vsched.Config{MaxSteps: 50000}, MaxDev: dev, Body: backlogBody(3, 1)},
 	}
 }
+
+// reconnectBody: what a follower acknowledges is stored durably (C03). The connection of the leader drops
+// while an entry is on its way or just appended; the leader's cursor reconnects in the same term and sends its
+// first unacknowledged entry again. Every ack the follower hands to a stream is checked, at that instant,
+// against what completed flushes of its log cover (the flush of the segment is a scheduling point, an msync
+// covers what the mapping held when it started).
+func reconnectBody() func(s *vsched.Sched) {
+	return func(s *vsched.Sched) {
+		s.Explore(false)
+		env := oxc.NewEnv(s)
+		net := oxc.NewNet()
+		kvf, err := kv.NewPebbleKVFactory(&kv.FactoryOptions{DataDir: filepath.Join(env.Dir, "n2", "db"), CacheSizeMB: 1})
+		if err != nil {
+			s.Fail("harness-setup", err.Error())
+			return
+		}
+		walf := wal.NewWalFactory(&wal.FactoryOptions{BaseWalDir: filepath.Join(env.Dir, "n2", "wal"), Retention: time.Hour, SegmentSize: 64 * 1024, SyncData: true})
+		fc, err := server.NewFollowerController(server.Config{NotificationsRetentionTime: time.Hour}, ns, shard, walf, kvf)
+		if err != nil {
+			s.Fail("harness-setup", err.Error())
+			return
+		}
+		defer func() {
+			_ = fc.Close()
+			_ = walf.Close()
+			_ = kvf.Close()
+		}()
+		net.Peers["n2"] = fc
+		if _, err := fc.NewTerm(&proto.NewTermRequest{Namespace: ns, Shard: shard, Term: 1, Options: &proto.NewTermOptions{EnableNotifications: true}}); err != nil {
+			s.Fail("harness-setup", err.Error())
+			return
+		}
+		w := server.VerifFollowerWal(fc)
+		durable := int64(-1)
+		var starts []int64
+		wal.VerifC10ObserveFlush(w, func() {
+			_, appended, _ := wal.VerifPeekOffsets(w)
+			starts = append(starts, appended)
+			s.Step(9)
+		}, func() {
+			if st := starts[len(starts)-1]; st > durable {
+				durable = st
+			}
+		})
+		var acked []int64
+		net.OnAckSend = func(_ *oxc.RepStream, a *proto.Ack) {
+			acked = append(acked, a.Offset)
+			if a.Offset > durable {
+				s.Fail("acknowledged-before-flush", fmt.Sprintf("the follower acknowledges offset %d; completed flushes of its log cover offsets up to %d only (flushes started at appended offsets %v)", a.Offset, durable, starts))
+			}
+		}
+		drain := func(st proto.OxiaLogReplication_ReplicateClient) {
+			vsched.Go(func() {
+				for {
+					if _, err := st.Recv(); err != nil {
+						return
+					}
+				}
+			})
+		}
+		st1, err := net.GetReplicateStream(context.Background(), "n2", ns, shard, 1)
+		if err != nil {
+			s.Fail("harness-setup", err.Error())
+			return
+		}
+		drain(st1)
+		if err := st1.Send(&proto.Append{Term: 1, Entry: entry(1, 0), CommitOffset: -1}); err != nil {
+			s.Fail("harness-setup", err.Error())
+			return
+		}
+		s.Settle()
+		s.Explore(true)
+		// entry 1 is on the wire when the connection drops
+		_ = st1.Send(&proto.Append{Term: 1, Entry: entry(1, 1), CommitOffset: 0})
+		vsched.Go(func() { net.Streams[0].Break() })
+		s.Settle()
+		// the cursor reconnects and sends entry 1 again
+		st2, err := net.GetReplicateStream(context.Background(), "n2", ns, shard, 1)
+		if err == nil {
+			drain(st2)
+			_ = st2.Send(&proto.Append{Term: 1, Entry: entry(1, 1), CommitOffset: 0})
+		}
+		s.Settle()
+		s.Explore(false)
+		s.Data = fmt.Sprintf("acked=%v durable=%d flushes=%v", acked, durable, starts)
+	}
+}
+
+// AckDurabilityScenarios: see reconnectBody (C03).
+func AckDurabilityScenarios(tier string) []sched.Scenario {
+	dev := 3
+	if tier == "thorough" {
+		dev = 4
+	}
+	return []sched.Scenario{{Name: "connection-drop-then-entry-sent-again", Cfg: vsched.Config{MaxSteps: 50000}, MaxDev: dev, Body: reconnectBody()}}
+}
